@@ -286,6 +286,15 @@ def r2_optimizer(repo: Repo, rep):
                 rep.check(R, good, co.site(p.ret_node), co.fq,
                           "scheduler = scheduler_class(optimizer, **scheduler_args) on the returned optimizer, and it is returned",
                           f"returns `{dump(ret)[:200]}`", dump(ret)[:200])
+                # the Solver's data loader makes the whole run one epoch: a scheduler stepped per epoch (Lightning's default) never steps
+                cfgs = [d for d in ast.walk(ret) if isinstance(d, ast.Dict) and any(isinstance(k, ast.Constant) and k.value == "scheduler" for k in d.keys if k is not None)]
+                if not cfgs:
+                    rep.violation(R, co.site(p.ret_node), co.fq, "the scheduler is returned in a configuration with interval 'step'", "bare scheduler (stepped once per epoch)", "bare scheduler")
+                for d in cfgs:
+                    iv = [v for k, v in zip(d.keys, d.values) if isinstance(k, ast.Constant) and k.value == "interval"]
+                    ok_iv = bool(iv) and isinstance(iv[-1], ast.Constant) and iv[-1].value == "step"
+                    rep.check(R, ok_iv, co.site(p.ret_node), co.fq, "the scheduler is stepped after every optimisation step (interval 'step')",
+                              f"interval {dump(iv[-1]) if iv else 'missing (epoch)'}", f"interval {dump(iv[-1]) if iv else 'missing'}")
 
 
 def r3_registration(repo: Repo, rep):
